@@ -116,3 +116,105 @@ example : resolve (fun _ => [9]) (stage id true ⟨0, .bufferProtocol, true⟩ (
 example : resolve (fun _ => [9]) (stage id false ⟨0, .bufferProtocol, true⟩ (fun _ => [1, 2])) = [9] := by decide
 
 end Ts.Stage
+
+/-! ### Histories: overlapping pending snapshots -/
+namespace Ts.Stage
+
+/-- invariant: every staged buffer of every pending snapshot is a private copy of the leaf's content at the time
+`async_take` returned -/
+def PendOk (codec : Bytes → Bytes) (p : Pending) : Prop :=
+  p.bufs = p.leaves.map (fun l => Buf.fresh (content codec l p.memAtCall))
+
+def WrittenOk (codec : Bytes → Bytes) (s : HState) : Prop :=
+  ∀ w ∈ s.written, ∃ p l, s.pend[w.1]? = some p ∧ p.leaves[w.2.1]? = some l ∧ w.2.2 = content codec l p.memAtCall
+
+theorem stage_async_fresh (codec : Bytes → Bytes) (l : Leaf) (mem : Mem) :
+    stage codec true l mem = .fresh (content codec l mem) := by
+  cases l with | mk a s c =>
+  cases s <;> cases c <;> simp [stage, stageWith, shouldCopy, content]
+
+theorem hstep_inv (codec : Bytes → Bytes) (s : HState) (op : Op)
+    (hp : ∀ p ∈ s.pend, PendOk codec p) (hw : WrittenOk codec s) :
+    (∀ p ∈ (hstepWith (stage codec true) s op).pend, PendOk codec p) ∧ WrittenOk codec (hstepWith (stage codec true) s op) := by
+  cases op with
+  | mutate f => exact ⟨hp, hw⟩
+  | asyncTake ls =>
+    constructor
+    · intro p hpm
+      simp only [hstepWith, List.mem_append, List.mem_singleton] at hpm
+      rcases hpm with h | rfl
+      · exact hp p h
+      · simp only [PendOk]
+        apply List.map_congr_left
+        intro l _
+        exact stage_async_fresh codec l s.mem
+    · intro w hwm
+      obtain ⟨p, l, h1, h2, h3⟩ := hw w hwm
+      refine ⟨p, l, ?_, h2, h3⟩
+      simp only [hstepWith]
+      rw [List.getElem?_append_left]
+      · exact h1
+      · exact (List.getElem?_eq_some_iff.mp h1).1
+  | write k i =>
+    cases hk : s.pend[k]? with
+    | none =>
+      have : hstepWith (stage codec true) s (.write k i) = s := by simp [hstepWith, hk]
+      rw [this]; exact ⟨hp, hw⟩
+    | some p =>
+      cases hb : p.bufs[i]? with
+      | none =>
+        have : hstepWith (stage codec true) s (.write k i) = s := by simp [hstepWith, hk, hb]
+        rw [this]; exact ⟨hp, hw⟩
+      | some b =>
+        have : hstepWith (stage codec true) s (.write k i)
+            = { s with written := s.written ++ [(k, i, resolve s.mem b)] } := by simp [hstepWith, hk, hb]
+        rw [this]
+        refine ⟨hp, ?_⟩
+        intro w hwm
+        simp only [List.mem_append, List.mem_singleton] at hwm
+        rcases hwm with h | rfl
+        · exact hw w h
+        · have hpo := hp p (List.mem_of_getElem? hk)
+          simp only [PendOk] at hpo
+          rw [hpo, List.getElem?_map] at hb
+          cases hl : p.leaves[i]? with
+          | none => simp [hl] at hb
+          | some l =>
+            simp only [hl, Option.map_some, Option.some.injEq] at hb
+            exact ⟨p, l, hk, hl, by rw [← hb]; rfl⟩
+
+/-- **Every history.** Whatever the application does — any number of `async_take` calls whose background I/O
+overlaps, any in-place mutations between and after them, background writes of the pending snapshots in any order and
+at any time — every buffer that reaches storage for snapshot `k` holds the serialisation of its leaf as it was when
+that snapshot's `async_take` returned. -/
+theorem C09_history_mutation_invisible (codec : Bytes → Bytes) (mem0 : Mem) (ops : List Op) :
+    WrittenOk codec (hrun codec (HState.init mem0) ops) := by
+  have key : ∀ (ops : List Op) (s : HState), (∀ p ∈ s.pend, PendOk codec p) → WrittenOk codec s →
+      WrittenOk codec (hrunWith (stage codec true) s ops) := by
+    intro ops
+    induction ops with
+    | nil => intro s _ hw; exact hw
+    | cons op ops ih =>
+      intro s hp hw
+      obtain ⟨hp', hw'⟩ := hstep_inv codec s op hp hw
+      exact ih _ hp' hw'
+  exact key ops _ (by simp [HState.init]) (by intro w hw; simp [HState.init] at hw)
+
+/-- Witness that the history model can exhibit the failure: with a staging buffer recycled per tensor across snapshots
+(`stagePooled`), take #1 — mutate — take #2 — write of #1 stores the *second* state under the first snapshot. -/
+theorem C09_witness_pooled_staging :
+    let l : Leaf := ⟨0, .bufferProtocol, true⟩
+    let s := hrunWith stagePooled (HState.init (fun _ => [1, 1])) [.asyncTake [l], .mutate (fun _ _ => [2, 2]), .asyncTake [l], .write 0 0]
+    s.written = [(0, 0, [2, 2])] ∧ content id l (fun _ => [1, 1]) = [1, 1] := by
+  decide
+
+/-- non-vacuity: two overlapping snapshots of one tensor, mutated in between; both writes happen after the second
+mutation; each snapshot stores the state at its own call -/
+example :
+    let l : Leaf := ⟨0, .bufferProtocol, true⟩
+    (hrun id (HState.init (fun _ => [1, 1]))
+      [.asyncTake [l], .mutate (fun _ _ => [2, 2]), .asyncTake [l], .mutate (fun _ _ => [3, 3]), .write 1 0, .write 0 0]).written
+      = [(1, 0, [2, 2]), (0, 0, [1, 1])] := by
+  decide
+
+end Ts.Stage
